@@ -81,6 +81,15 @@ def generate(seed: int, tier: str, index: int) -> dict:
                                "target": rng.choice(["edit-stream", "add-key", "edit-defaults", "add-stream", "add-mps"]),
                                "token": rng.choice(["fresh", "fresh", "reuse", "reuse", "cross-service", "cross-cookie",
                                                     "tamper-char", "tamper-trunc", "salt-swap"])})
+        if rng.random() < 0.35:
+            # directed placement: a token is used, the clock passes the 20-minute lifetime of its Token row (or the
+            # server restarts, or both), and the very same token is presented again
+            target = rng.choice(["edit-stream", "add-key", "edit-defaults", "add-stream", "add-mps"])
+            script.append({"op": "use", "target": target, "token": "fresh"})
+            for _ in range(rng.choice([1, 1, 2])):
+                script.append(rng.choice([{"op": "jump", "us": rng.choice([1199, 1201, 1260, 7200]) * 1_000_000}] * 3 +
+                                         [{"op": "restart"}]))
+            script.append({"op": "use", "target": target, "token": "reuse", "stale_cookies": rng.random() < 0.6})
         a = {"id": "probe", "kind": "csrfprobe", "role": rng.choice(["media", "media", "admin"]),
              "prng": rng.getrandbits(32), "latency": {"min_us": 1000, "jitter_us": rng.choice([0, 100_000])},
              "script": script}
